@@ -34,6 +34,14 @@ CHECKS = {
    technique="explicit-state BFS over histories with a choice-centred alphabet (top-level, nested and in-list choices, non-members with prefix-related names); device projected on choice members after every transition and compared with the winning case computed from the reference model",
    text="Exhaustive exploration of histories in which 3 owners with distinct priorities populate different cases of the same choice, are added, changed, re-prioritised and removed, one or two per transaction, with non-member siblings abx / eth-speedx in intents and in the running config. After every applied transition each choice instance on the device may hold nodes of one case only, namely the case of the lowest-priority-number contribution among live intents, whose members must carry the ruling values.",
    note="Bounded by depth/alphabet. Several structural defects are recorded as known findings (choices in lists, nested choices, multi-intent transactions, case activated by removal); the part that is clean and guarded is single-intent case switching on a top-level choice and the non-influence of non-members."),
+ "C14": dict(level="model_checking", engine=E1, design="DESIGN.md §3 C14",
+   technique="explicit-state BFS over histories (states) x exhaustive request menu (17 path sets x 5 datastore/data-type selections x 4 encodings) on the real Datastore.Get, compared with an element-wise prefix filter of the dumped stores; JSON documents interpreted by a schema-guided walker",
+   text="Every state reached by the history search (plus preloaded running and STATE content with prefix-related names: mtu/mtu-ext, if/ifx, e1/e10) is queried with the whole request menu through Datastore.Get with a draining consumer. The returned leaf set (STRING/PROTO directly, JSON/JSON_IETF through the schema-guided interpreter) must equal the element-wise filter of the store dump; unknown paths and unsupported combinations must fail without data; the response channel is always closed; no panic, no hang.",
+   note="Bounded by depth/alphabet and the printed request menu; INTENDED is compared with the highest-precedence entry per path; pkg/server.GetData's stream plumbing is C19's subject."),
+ "C15": dict(level="exploration", engine="E3-inputs", design="DESIGN.md §3 C15",
+   technique="bounded-exhaustive enumeration of store contents (3^4 combinations of running and three intents per path, for 9 leaf types and for pairs of paths) written into the real cache, one deviation cycle each through the hook, message multiset compared with a reference model",
+   text="For each leaf type class all 81 combinations of running in {absent,v1,v2} and intents A@10,B@20,C@30 in {absent,v1,v2} (and for pairs of paths the product, complete in the thorough tier) are written directly into the CONFIG and INTENDED stores; one deviation cycle runs through the VerifRunDeviationCycle hook into a recording stream; the messages between START and END must equal, as a multiset of (reason, intent, path, expected, current), what the reference model derives from the store contents.",
+   note="Exhaustive within the value domain {v1,v2} per type and at most two paths; values are typed the way the request pipeline types them."),
  "C18": dict(level="fault_enumeration", engine="E2-faults", design="DESIGN.md §3 C18",
    technique="exhaustive enumeration of behaviour assignments (ok / warning reply / error / rpc-error / EOF / dead) to every netconf.Driver call of the real ncTarget.Set, over real change documents, both commit-datastore settings and all 8 option combinations, with a candidate-modelling fake driver",
    text="The production NETCONF target (hook constructor around a harness driver) is driven through the real transaction pipeline. For 6 change-document scenarios x {candidate,running} x 8 XML option combinations x every assignment of behaviours to IsAlive/EditConfig/Commit/Discard the driver call log is checked: success = exactly one edit-config (+ exactly one commit), nothing for an empty change, a discard after any failure before the error is returned, and a following fault-free transaction never commits leftovers (the fake models the candidate's pending edits). The space is finite and enumerated completely.",
@@ -76,6 +84,7 @@ m = {
  },
  "engines": [
    {"name": "E2-faults", "path": "harness/h/check_c07.go", "serves_properties": ["C07", "C18"], "kind_free_text": "fault enumeration: every assignment of failure behaviours to the collaborator calls of one operation, each executed on the real code"},
+   {"name": "E3-inputs", "path": "harness/h/check_c15.go", "serves_properties": ["C15"], "kind_free_text": "bounded-exhaustive enumeration of inputs / store contents over explicit finite domains, each case executed on the real code and judged by a reference model"},
    {"name": E1, "path": "harness/h/explore.go", "serves_properties": sorted(k for k, v in CHECKS.items() if v["engine"] == E1),
     "kind_free_text": "level-synchronous explicit-state search; successor = replay of the shortest history on a fresh real Datastore/cache instance + one operation; canonical state key without timestamps; per-property oracle plug-ins"},
  ],
